@@ -100,6 +100,8 @@ pub enum EnvOp {
     Donate(Id, u8, u128),
     NoRedel(Id, bool),
     NoUndel(Id, bool),
+    /// the validator leaves (true) or re-enters (false) the chain's active set
+    Inactive(Id, bool),
     /// upgrade of a contract to the same code (calls its `migrate` entry point)
     Migrate(Id),
     Oracle(bool, u128),
@@ -290,6 +292,7 @@ impl Op {
                 EnvOp::Donate(a, d, n) => format!("env donate {} {} {}", a, d, n),
                 EnvOp::NoRedel(v, b) => format!("env noredel {} {}", v, b01(*b)),
                 EnvOp::NoUndel(v, b) => format!("env noundel {} {}", v, b01(*b)),
+                EnvOp::Inactive(v, b) => format!("env inactive {} {}", v, b01(*b)),
                 EnvOp::Migrate(c) => format!("env migrate {}", c),
                 EnvOp::Oracle(b, p) => format!("env oracle {} {}", b01(*b), p),
                 EnvOp::Swap(b, p) => format!("env swap {} {}", b01(*b), p),
@@ -519,6 +522,7 @@ pub fn parse_line(line: &str) -> Option<Op> {
         ["env", "donate", a, d, n] => Some(Op::Env(EnvOp::Donate(pn(a)?, pn(d)?, pn(n)?))),
         ["env", "noredel", v, b] => Some(Op::Env(EnvOp::NoRedel(pn(v)?, pb(b)?))),
         ["env", "noundel", v, b] => Some(Op::Env(EnvOp::NoUndel(pn(v)?, pb(b)?))),
+        ["env", "inactive", v, b] => Some(Op::Env(EnvOp::Inactive(pn(v)?, pb(b)?))),
         ["env", "migrate", c] => Some(Op::Env(EnvOp::Migrate(pn(c)?))),
         ["env", "oracle", b, p] => Some(Op::Env(EnvOp::Oracle(pb(b)?, pn(p)?))),
         ["env", "swap", b, p] => Some(Op::Env(EnvOp::Swap(pb(b)?, pn(p)?))),
@@ -774,6 +778,13 @@ impl Chain {
                             self.no_undelegate.insert(*v);
                         } else {
                             self.no_undelegate.remove(v);
+                        }
+                    }
+                    EnvOp::Inactive(v, b) => {
+                        if *b {
+                            self.inactive.insert(*v);
+                        } else {
+                            self.inactive.remove(v);
                         }
                     }
                     EnvOp::Oracle(b, p) => {
